@@ -27,10 +27,11 @@ type C11Op struct {
 }
 
 type C11Case struct {
-	N    int        `json:"n"`
-	Init [][]IncDir `json:"init"`
-	Body []int      `json:"body"`
-	Ops  []C11Op    `json:"ops"`
+	N     int        `json:"n"`
+	Init  [][]IncDir `json:"init"`
+	Body  []int      `json:"body"`
+	Ops   []C11Op    `json:"ops"`
+	Depth int        `json:"depth,omitempty"` // >0: include depth limit of the shared and of every fresh loader
 }
 
 var c11Bodies = []string{
@@ -139,7 +140,16 @@ func c11Check(c *C11Case) (ds []ev.Discrepancy, classes []string) {
 		dirs[i], body[i] = c.Init[i], c.Body[i]
 		write(i)
 	}
-	shared := include.NewLoader()
+	newLoader := func() *include.Loader {
+		l := include.NewLoader()
+		if c.Depth > 0 {
+			lim := include.DefaultLimits()
+			lim.MaxIncludeDepth = c.Depth
+			l.SetLimits(lim)
+		}
+		return l
+	}
+	shared := newLoader()
 	loads, edits := 0, 0
 	cls := map[string]bool{}
 	for si, op := range c.Ops {
@@ -157,7 +167,7 @@ func c11Check(c *C11Case) (ds []ev.Discrepancy, classes []string) {
 			cls["clear"] = true
 		case "load", "loadc":
 			p := c10Path(root, op.Root)
-			fresh := include.NewLoader()
+			fresh := newLoader()
 			var r1, r2 *include.ResolvedJournal
 			var e1, e2 []include.LoadError
 			if op.Op == "load" {
@@ -205,7 +215,7 @@ func genDirs(t *rapid.T, n int, max int) []IncDir {
 			ds = append(ds, IncDir{Kind: "glob", Pattern: rapid.SampledFrom(globs).Draw(t, "pat")})
 		default:
 			ds = append(ds, IncDir{Kind: "file", Target: rapid.IntRange(0, n-1).Draw(t, "target"),
-				Form: rapid.SampledFrom([]string{"rel", "rel", "rel", "abs", "home"}).Draw(t, "form")})
+				Form: rapid.SampledFrom([]string{"rel", "rel", "rel", "abs", "home", "absdot", "absup"}).Draw(t, "form")})
 		}
 	}
 	return ds
@@ -224,6 +234,7 @@ func genC11(t *rapid.T) *C11Case {
 		}
 		c.Body = append(c.Body, rapid.IntRange(0, 2).Draw(t, "body"))
 	}
+	c.Depth = rapid.SampledFrom([]int{0, 0, 0, 2, 3, 4}).Draw(t, "depthlimit")
 	steps := rapid.IntRange(2, 6).Draw(t, "steps")
 	for s := 0; s < steps; s++ {
 		switch rapid.IntRange(0, 9).Draw(t, "op") {
@@ -253,6 +264,7 @@ func TestC11(t *testing.T) {
 				nt = true
 			}
 		}
+		cls = append(cls, fmt.Sprintf("depth-limit:%d", c.Depth))
 		recC11.Case(nt, mustJSON(c), cls...)
 		if nt && recC11.WantSample() {
 			recC11.Sample(c)
